@@ -131,6 +131,28 @@ def r18_2(ctx):
     return r
 
 
+def r18_4(ctx):
+    r = Rule("R18.4", "the factory arrow generated around a non-literal default carries DUMMY_SP: the props builder tells it from a function the user wrote by that span",
+             "with a real span the builder no longer strips the factory for a Function-typed prop: Vue receives a factory around the written function")
+    pe = C.role_or_fail(ctx, r, "props_extractor")
+    if not pe:
+        return r
+    r.saw(pe["path"])
+    n = 0
+    for x in walk(pe["body"]):
+        if x.get("k") == "Struct" and x.get("adt") == AST + "ArrowExpr":
+            n += 1
+            sp = {f["name"]: f["e"] for f in x["fields"]}.get("span")
+            t = expr_str(sp) if sp is not None else "<default>"
+            r.ob("generated factory arrow #%d has span DUMMY_SP" % n, t == "DUMMY_SP", C.mloc(pe, x), t if t == "DUMMY_SP" else "span is `%s`" % t[:60])
+    pb = C.role(ctx, "props_builder")
+    if pb is not None:
+        tt = expr_str(pb["body"])
+        r.ob("the props builder recognises the generated factory by `span == DUMMY_SP`", "(span == DUMMY_SP)" in tt, C.mloc(pb, pb), "test present" if "(span == DUMMY_SP)" in tt else "no span test (different strategy: see R18.2)")
+    r.ob("generated factory arrows found", n > 0, "-", "%d ArrowExpr literal(s) in the props extractor" % n)
+    return r
+
+
 def r18_3(ctx):
     r = Rule("R18.3", "defaults are matched to props symmetrically for quoted and unquoted keys; mergeDefaults(props, defaults) for dynamic defaults",
              "an asymmetric match drops the default of one spelling; swapped arguments merge the wrong way")
@@ -190,7 +212,7 @@ def r18_3(ctx):
 def rules(ctx):
     from ..engine import only
     from . import c16
-    return [r18_1, r18_2, r18_3,
+    return [r18_1, r18_2, r18_3, r18_4,
             only(c16.r16_1, lambda k: k.startswith("props_extractor"), "the written default is taken the same way for every form of the setup function / its first parameter")]
 
 
